@@ -74,6 +74,10 @@ pub enum InboundProbeEvent {
     },
 }
 
+#[cfg(libp2p_verif)]
+#[path = "../../verif_proto_b.rs"]
+mod verif_proto_b;
+
 /// View over [`super::Behaviour`] in a server role.
 pub(crate) struct AsServer<'a> {
     pub(crate) inner: &'a mut request_response::Behaviour<AutoNatCodec>,
